@@ -485,7 +485,7 @@ func c55Scenario(c *vctx, rng *vrng, idx int, mode string, proc bool) error {
 func engineC55(c *vctx) error {
 	c.Header("Model.C55m", "C55m.case", "C55m.check_case")
 	c.Preamble("Import C55m.")
-	n := c.n(24, 240)
+	n := c.n(24, 180)
 	for i := 0; i < n; i++ {
 		mode := []string{"any", "any", "any", "vanish", "none", "any"}[i%6]
 		if i == 0 {
@@ -496,7 +496,7 @@ func engineC55(c *vctx) error {
 		}
 	}
 	if _, err := exec.LookPath("setpriv"); err == nil {
-		np := c.n(4, 24)
+		np := c.n(4, 16)
 		for i := 0; i < np; i++ {
 			mode := []string{"perm", "perm", "none", "perm"}[i%4]
 			if err := c55Scenario(c, c.rng.fork(), n+i, mode, true); err != nil {
